@@ -5,6 +5,8 @@ CONSTANTS
   MaxKw = 2
   Hazard = {"self", "logger", "action_type", "_serializers", "result", "fields", "args", "kwargs", "_call", "task_level", "exception"}
   MaxHaz = 1
+  Implicit = {"cls", "klass", "this", "me"}
+  ImplKw = 2
   HazParams = 3
   HazPos = 3
   HazKw = 2
@@ -20,6 +22,7 @@ INVARIANT Rejection
 INVARIANT DeviationScope
 INVARIANT KindsOK
 INVARIANT LoggedOK
+INVARIANT ImplicitLogged
 INVARIANT Shape
 INVARIANT PlacementOK
 INVARIANT Emit
